@@ -14,6 +14,11 @@ FAST_MS = 3000
 
 
 _quant_cache = {}
+_DEADLINE = [None]      # wall-clock limit for the fallback stages of the obligation in progress
+
+
+def _expired():
+    return _DEADLINE[0] is not None and time.time() > _DEADLINE[0]
 
 
 def _has_quant(f):
@@ -183,6 +188,8 @@ def _relevance_stage(ob, axioms, seed, t0, per_try_ms=5000):
     selected = set()
     tried = []
     for thr in (0.7, 0.55, 0.4, 0.3, 0.2):
+        if _expired():
+            return False
         changed = True
         rounds = 0
         while changed and rounds < 3:
@@ -245,6 +252,8 @@ def _small_plus_rare(ob, axioms, seed, t0, per_try_ms=5000):
         rare = {x for x in gs if freq.get(x, 0) <= rare_max}
         own = {i for i, ss in enumerate(hs) if ss & rare}
         for cap in (600, 1500, 5000):
+            if _expired():
+                return False
             keep = own | {i for i, h in enumerate(hyps) if _slen(h) <= cap}
             if len(keep) == len(hyps):
                 continue
@@ -313,6 +322,8 @@ def _drop_large(ob, axioms, seed, t0, per_try_ms=4000):
     attempts += [{i} for i, sz in quant[:24] if sz > 150]
     seen_sets = []
     for drop in attempts:
+        if _expired():
+            return False
         if drop in seen_sets:
             continue
         seen_sets.append(drop)
@@ -457,6 +468,9 @@ def _long_stages(ob, axioms, timeout_ms, use_cvc5, seed, t0):
         return _finish(ob, s, r, t0)
     ob.backend = "z3"
     ob.reason = "z3: " + s.reason_unknown()
+    # the fallback stages share one wall-clock budget (2.5 x the per-obligation budget): an
+    # obligation that is false but not refutable must not hold a quick run for minutes
+    _DEADLINE[0] = time.time() + 2.5 * timeout_ms / 1000.0
     # stage 4: fewer hypotheses (sound).  Large callee postconditions / invariants that are
     # irrelevant to this goal often drown the instantiation engine; a proof from a subset of the
     # hypotheses is a proof.
@@ -466,6 +480,7 @@ def _long_stages(ob, axioms, timeout_ms, use_cvc5, seed, t0):
         return ob
     if _drop_large(ob, axioms, seed, t0):
         return ob
+    _DEADLINE[0] = None
     ob.seconds = time.time() - t0
     ob.status = "undecided"
     return ob
